@@ -6,6 +6,7 @@ Emboss/Model/TextTree.lean (value/struct/array writer and reader);
 spec: Emboss/Spec/Text.lean; helper lemmas: Emboss/Lemmas/Text*.lean.
 -/
 import Emboss.Lemmas.TextIntWrite
+import Emboss.Lemmas.TextWrite
 namespace Emboss.Text
 open Spec
 
@@ -82,5 +83,49 @@ example :
     decodeInt .i8 "-128".toList = some (-128) ∧
     textValue true "-128".toList = some (-128) ∧ textValue false "-1".toList = none := by
   decide +kernel
+
+/-! ## The writer's output is read back token for token -/
+
+/-- For every value tree (structs, arrays, integers, enums, booleans, float texts; read-only
+fields as comments) and every *re-readable* option set — `O_rr` = {single-line, comments off}
+∪ {multi-line, comments on|off}, any base, any digit grouping, any blank indentation —
+`ReadToken` applied repeatedly to `WriteToString`'s text yields exactly the tokens the writer
+emitted (names, `:`, `{`, `}`, `[`, `]`, `,`, numbers, enum names, …), comments and white
+space dropped.  Single-line output *with* comments is excluded (`Opts.Rereadable`): a `#`
+comment swallows the rest of the line, see `C06_single_line_comments_counterexample`. -/
+theorem C06_tokens_roundtrip (o : Opts) (v : TVal) (ho : o.Rereadable) (hv : v.WF) :
+    tokens (writeToString o v) = some (toks (writeVal o v)) := by
+  have := tokens_of_wellSep (writeVal o v) .other ((render (writeVal o v)).length + 1)
+    (wellSep_val v o ho hv).1 (Nat.lt_succ_self _)
+  simpa [tokens, writeToString] using this
+
+def exTree : TVal :=
+  .struct (.cons "n".toList false (.scalar (.int .u8 2))
+    (.cons "v".toList true (.scalar (.int .u32 4))
+    (.cons "e".toList false (.scalar (.enumV (some "RED".toList) .u8 1))
+    (.cons "xs".toList false (.arr true (.cons (.scalar (.int .u8 72)) (.cons (.scalar (.int .u8 105)) .nil)))
+    (.cons "f".toList false (.scalar (.bool true)) .nil)))))
+
+def exOptsML : Opts := ⟨true, true, .b10, true, "  ".toList, []⟩
+def exOptsSL : Opts := ⟨false, false, .b16, false, [], []⟩
+def exOptsBad : Opts := ⟨false, true, .b10, false, [], []⟩
+
+example : exOptsML.Rereadable ∧ exOptsSL.Rereadable ∧ exTree.WF := by
+  refine ⟨⟨by decide, by decide, by decide⟩, ⟨by decide, by decide, by decide⟩, ?_⟩
+  simp [exTree, TVal.WF, TFields.WF, TVals.WF, Scalar.WF, ValidWord, isDelim, isSpace, isPunct]
+
+example : String.ofList (writeToString exOptsSL exTree) =
+    "{ n: 0x2, e: RED, xs: { [0x0]: 0x48, 0x69 }, f: true }" := by decide +kernel
+
+example : String.ofList (writeToString exOptsML exTree) =
+    "{\n  n: 2  # 0x2\n  # v: 4  # 0x4\n  e: RED  # 1\n  xs: {\n    # Hi\n    [0]: 72  # 0x48\n    [1]: 105  # 0x69\n  }\n  f: true\n}" := by
+  decide +kernel
+
+theorem C06_single_line_comments_counterexample :
+    ¬ exOptsBad.Rereadable ∧
+      tokens (writeToString exOptsBad exTree) ≠ some (toks (writeVal exOptsBad exTree)) := by
+  constructor
+  · intro h; exact absurd (h.comments_need_multiline rfl) (by decide)
+  · decide +kernel
 
 end Emboss.Text
